@@ -340,8 +340,7 @@ def selftests(ck, pairs, verdicts):
     if len(good) < len(pairs):
       return            # the tree under test misbehaves broadly; verdicts above already say so
     raise core.MachineryError("could not build the binding self-tests from the recorded traces")
-  sub = core.Check(ck.pid, ck.level, ck.tier, ck.seed)
-  sub.work = ck.work
+  sub = core.Check(ck.pid, ck.level, ck.tier, ck.seed, parent=ck)
   vs = sub.validate("InvRoot_Trace", "InvRoot_Trace",
                     [{"cfg": j["case"], "events": r["events"]} for _, j, r, _ in tests])
   for (name, j, r, want), v in zip(tests, vs):
